@@ -32,6 +32,18 @@ STATE = "state::ObservableState::<T>::"
 CALL_CLOSURE = r"(FnOnce|FnMut|Fn)(<.*>>?)?::call(_once|_mut)?$"
 
 
+def state_fn_for(F, public_name):
+    """the ObservableState method behind a public setter, found through the stable public wrapper
+    `SharedObservable::<T>::<public_name>` (so renaming the crate-private method does not matter)."""
+    w = F.fn(EY, "shared::SharedObservable::<T>::" + public_name)
+    sf = state_fns(F)
+    if w is not None and w.built:
+        cs = [F.local_callee(w, t) for _, t in w.built.calls() if F.local_callee(w, t) in sf]
+        if len(cs) == 1:
+            return cs[0]
+    return F.fn(EY, STATE + public_name)
+
+
 def logical_bodies(F, fn):
     """the bodies that implement fn: itself, or the coroutine body of an async fn, plus nested closures."""
     out = []
@@ -163,7 +175,7 @@ def r01_2(ctx, notify):
     good = notifying_callees(F, notify)
     # set_if_not_eq / set_if_hash_not_eq
     for name, kind in (("set_if_not_eq", "eq"), ("set_if_hash_not_eq", "hash")):
-        f = F.fn(EY, STATE + name)
+        f = state_fn_for(F, name)
         if f is None:
             ctx.missing("R01.2", STATE + name)
             continue
@@ -232,7 +244,7 @@ def r01_2(ctx, notify):
                 eq = conds.cmp_holds(facts, "Eq", lambda e: True, lambda e: True)
                 ctx.verdict(True if eq else None, "R01.2", f, "none-when-equal", b.line_at(loc), "None is returned on the equal edge")
     # update_if: notify on the true edge
-    f = F.fn(EY, STATE + "update_if")
+    f = state_fn_for(F, "update_if")
     if f is None:
         ctx.missing("R01.2", STATE + "update_if")
     else:
@@ -265,7 +277,7 @@ def F_local(F, fn, call_expr):
 
 def r01_3(ctx):
     F = ctx.facts
-    f = F.fn(EY, STATE + "set")
+    f = state_fn_for(F, "set")
     if f is None:
         ctx.missing("R01.3", STATE + "set")
         return
@@ -282,7 +294,7 @@ def r01_3(ctx):
     ctx.verdict(ok, "R01.3", f, "returns-previous", f.loc(), "set returns mem::replace(&mut self.value, value)",
                 "set does not return the previous value (returns `%s`)" % fmt(e, 4))
     for name in ("set_if_not_eq", "set_if_hash_not_eq"):
-        g = F.fn(EY, STATE + name)
+        g = state_fn_for(F, name)
         if g is None:
             continue
         gb = g.built
